@@ -177,7 +177,12 @@ def case_solve(ctx, rng):
         return
     kind = "static" if type(a).static_symmetry else "generic_str"
     b = gen.make_array(sr, rng, sym, [a.indices[0]], kind=kind, values=gen.Values(rng, "gauss", str(next(iter(a.blocks.values())).dtype)), sparsity=rng.choice([0.0, 0.4]))
-    if not b.blocks:
+    if b.blocks and rng.random() < 0.06:
+        # the symmetric ZERO vector of that charge: no stored block at all
+        for s_ in list(b.blocks):
+            del b.blocks[s_]
+        feats.add("right-hand-side-without-blocks")
+    if not b.blocks and "right-hand-side-without-blocks" not in feats:
         return
     fb = rng.choice([1.0, 1.0, 1.0, 1e-9, 1e-12, 1e5])
     if fb != 1.0:
